@@ -1902,15 +1902,15 @@ def run(tier):
     T, covered = analyse(ck, facts)
     ck.assume("input meshes are conforming: every local d-face of a coarse cell is a coarse d-entity with the same vertex set, whose own vertex numbering is the "
               "cell's view of it permuted by a symmetry of the face shape (all symmetries are enumerated)")
-    ck.assume("the refineries pass the coarse entity counts / coarse index sets (resp. the parent's counts and topology for mesh parts) to the wrappers; these call-site "
-              "contracts of StandardRefinery are not checked here")
+    ck.assume("callers of StandardRefinery hand over the mesh/part/parent they mean (E10.callsite-roles covers the call sites inside StandardRefinery and "
+              "TargetSetRefineParentWrapper<ConformalMesh>; the StructuredMesh parent variants are not instantiated)")
     ck.assume("cell-locality: a template reads only index-set rows of the coarse entity it refines, of its faces and of its edges (verified by E10.slot-origin), so the "
               "reference-cell case analysis covers every conforming mesh")
     ck.assume("E10.child-orientation/-volume use affine cells: vertex coordinates of new vertices are the means decided by E10.vertex-mean")
     extra = {"templates_covered": covered,
              "not_covered": ["StandardTargetRefiner<Hypercube<3>|Simplex<3>, cell_dim>=0>: mesh parts with 3D cells (the repository aborts with XASSERT num_cells == 0)",
                              "adaptation to charts, BoundaryFactory, FacetNeighbors, IndexCalculator, MeshPermutation, structured meshes",
-                             "call-site contracts of the refineries (coarse counts / coarse index sets passed to the wrappers) are assumed"]}
+                             "TargetSetRefineParentWrapper<StructuredMesh> (structured parents), StandardAttribRefiner (mesh part attributes), CongruencySampler::orientation / CongruencyMapping::flip"]}
     if tier == "thorough":
         import json
         # (a) the same analysis on the DEBUG configuration (ASSERTs of the table functions become visible)
